@@ -377,7 +377,8 @@ sys_prop(
      "C02_remove_deletes_exactly_its_key", "C02_take_deletes_exactly_its_key_and_returns_it",
      "C02_clear_empties", "C02_code_keys_compare_type_and_id", "C02_code_maps_address_the_given_key",
      "C02_code_keys_carry_the_id_as_given", "C02_code_clear_empties_the_whole_map", "C02_code_lookup_before_load",
-     "C02_failed_plain_load_adds_nothing", "C02_failed_load_inserts_nothing_itself"],
+     "C02_failed_plain_load_adds_nothing", "C02_failed_load_inserts_nothing_itself",
+     "C02_code_add_asset_loads_then_inserts"],
     ["Private", "Deps", "CacheMap", "LocalMap", "Anycache"], ["handle-changed", "key-type-confusion", "racers-disagree"],
     extra_engines=[("racediff", ["--parts", "reentrant"])])
 
@@ -398,15 +399,15 @@ sys_prop(
     "ill-formed UTF-8 and stays within i64, StringLoader keeps the bytes of exactly the well-formed strings.  "
     "Error ids/wrapping, FileContent variants, "
     "retry after repair are checked by the correspondence (traces of reads and loader calls compared verbatim).",
-    ["Proofs/Load.v", "Proofs/Utf8.v", "Proofs/Loaders.v", "Tie/Error.v", "Tie/LoadFromSource.v", "Tie/Dirs.v", "Tie/Loaders.v",
+    ["Proofs/Load.v", "Proofs/Utf8.v", "Proofs/Loaders.v", "Tie/Error.v", "Tie/LoadFromSource.v", "Tie/Dirs.v", "Tie/Loaders.v", "Tie/Graph.v",
      "Props/C03.v"], ["Props/C03.vo"],
     ["C03_code_or_is_model_or", "C03_code_error_conversions_keep_the_class", "C03_code_load_error_names_the_asked_id", "C03_or_prefers_the_higher_class",
      "C03_code_load_from_source_is_model_up_to_3_extensions", "C03_first_readable_decodable_extension_wins",
      "C03_all_fail_highest_class_error_goes_to_default", "C03_empty_extension_list_goes_to_default", "C03_code_default_extension_list",
-     "C03_code_builtin_loaders_as_modelled", "C03_parse_loader_ignores_surrounding_whitespace",
+     "C03_code_path_of_entry", "C03_code_builtin_loaders_as_modelled", "C03_parse_loader_ignores_surrounding_whitespace",
      "C03_trim_removes_exactly_the_surrounding_whitespace", "C03_parse_loader_rejects_ill_formed_utf8",
      "C03_parse_loader_stays_in_range", "C03_string_loader_keeps_the_bytes"],
-    ["Error", "Asset", "Key", "Flags", "Dirs", "Loaders"], ["loader-depends-on-delivery"], mode="cold",
+    ["Error", "Asset", "Key", "Flags", "Dirs", "Loaders", "Private"], ["loader-depends-on-delivery", "filesystem-load-differs"], mode="cold",
     extra_engines=[("loaddiff", [])])
 PROPS["C03"]["model_files"] = PROPS["C03"]["model_files"] + ["Ref/Utf8.v", "Ref/Loaders.v", "Corr/LoadCheck.v"]
 PROPS["C03"]["model_targets"] = PROPS["C03"]["model_targets"] + ["Corr/LoadCheck.vo"]
@@ -416,7 +417,9 @@ PROPS["C03"]["rule"] = PROPS["C03"]["rule"] + (
     "numbers wrapped in every kind of Unicode white space and in look-alikes that are not white space, signs, "
     "leading zeros, the i64 bounds, non-ASCII digits, white space inside, ill-formed UTF-8, random bytes and "
     "text -- as borrowed and as owned content; results compared with Ref/Loaders.v (parse_loader, valid) by "
-    "Corr/LoadCheck.v; borrowed / owned / LoadFrom / cache must agree (monitor).")
+    "Corr/LoadCheck.v; borrowed / owned / LoadFrom / cache must agree (monitor); the same contents written to "
+    "a real directory under the empty and under a named extension and loaded through FileSystem with extension "
+    "lists [\"\", num] and [num, \"\"]: the first extension whose file parses wins (monitor).")
 
 sys_prop(
     "C05",
@@ -469,7 +472,8 @@ sys_prop(
      "C06_each_affected_asset_once", "C06_watcher_reports_growth_once",
      "C06_value_read_after_a_reported_reload_is_as_new", "C06_code_forgets_dropped_dependencies", "C06_code_visits_each_asset_once",
      "C06_code_watcher_starts_at_the_current_id", "C06_code_pass_bookkeeping",
-     "C06_a_pass_reloads_only_dependents_of_changes", "C06_a_notified_pass_reloads_only_dependents_of_changes"],
+     "C06_a_pass_reloads_only_dependents_of_changes", "C06_a_notified_pass_reloads_only_dependents_of_changes",
+     "C06_nothing_recorded_never_reloaded"],
     ["Entry", "CallGraph", "Deps", "Private", "Paths"],
     ["watcher", "guard-not-pinned", "changed-outside-hot_reload", "hot_reload-returned-early", "stale-after-pass"],
     mode="hot", extra_engines=[("rwdiff", [])])
@@ -509,15 +513,16 @@ sys_prop(
     "exactly-once ledger over whole histories (incl. reloads, races are C01) is checked on the implementation.  "
     "Partial: swap_any's byte swap and Box::from_raw casts are memory-level and not modelled.",
     ["Proofs/SysGrows.v", "Proofs/SysStatic.v", "Proofs/SysMap.v", "Proofs/SysReload.v", "Tie/Erasure.v",
-     "Tie/Entry.v", "Tie/Maps.v", "Proofs/SysLedger.v", "Props/C13.v"],
+     "Tie/Entry.v", "Tie/Maps.v", "Tie/Records.v", "Proofs/SysLedger.v", "Props/C13.v"],
     ["Props/C13.vo"],
     ["C13_casts_are_guarded_by_the_type_id", "C13_insertion_loser_dropped_at_once", "C13_code_insert_keeps_the_first",
      "C13_remove_drops_exactly_the_removed", "C13_take_hands_over_then_the_caller_drops",
      "C13_clear_drops_every_entry", "C13_entries_reachable_through_handles_survive_loads",
      "C13_old_value_is_replaced_under_the_write_lock", "C13_lookup_is_by_type",
      "C13_code_reload_swaps_whole_same_typed_values", "C13_ledger_of_every_history", "C13_no_double_drop",
-     "C13_everything_dropped_once_when_empty", "C13_every_operation_balances"],
-    ["Entry", "CacheMap", "LocalMap", "Private"],
+     "C13_everything_dropped_once_when_empty", "C13_every_operation_balances",
+     "C13_code_add_asset_loads_then_inserts"],
+    ["Entry", "CacheMap", "LocalMap", "Private", "Anycache", "Records"],
     ["value-not-dropped-exactly-once", "handle-changed", "torn-read", "guard-not-pinned", "loser-not-dropped",
      "racers-disagree", "presence-flipped", "handle-moved"], mode="all",
     extra_engines=[("rwdiff", []), ("racediff", [])])
@@ -611,7 +616,8 @@ PROPS["C01"] = dict(
     props_module="Props.C01",
     theorems=["C01_code_maps_as_modelled", "C01_code_keys_carry_the_id_as_given", "C01_sharded_map_is_a_map",
               "C01_or_insert_keeps_the_first",
-              "C01_race_has_one_winner_seen_by_all", "C01_presence_is_monotone", "C01_code_lookup_before_load"],
+              "C01_race_has_one_winner_seen_by_all", "C01_presence_is_monotone", "C01_code_lookup_before_load",
+              "C01_code_add_asset_loads_then_inserts"],
     engines=[("racediff", [])],
     thorough_features=[["parking_lot"], ["no_ahash"]],
     rule="racediff: (a) 2/4/8/16 threads released together on one key whose loader waits until all racers "
@@ -652,24 +658,27 @@ PROPS["C04"] = dict(
                "exactly like the specification for the tree the members describe, each child once; member "
                "order and directory members that other members imply do not matter; the printed "
                "register_dir / register_file / create / read_dir / exists of zip.rs and tar.rs have the "
-               "modelled shape, and the embed! macro fills its tables as printed (one row per file, sorted).  "
-               "FileSystem and Embedded, path parsing (IdBuilder, extension_of), zip / tar / "
+               "modelled shape, and the embed! macro fills its tables as printed (one row per file, sorted); the "
+               "tables it builds from any directory tree with distinct entries ARE the archive index of the same "
+               "content listed depth first, hence answer like the tree.  "
+               "FileSystem, the hash maps of Embedded, path parsing (IdBuilder, extension_of), zip / tar / "
                "flate2 decoding, SyncFile cloning and the OS are exercised by srcdiff against the "
                "specification (translation validation for that half), not modelled.",
     level_note="Trusted: Coq kernel+VM, the harness (tree generator, archive writers of the zip and tar crates, "
                "answer printers), the checkers in Corr/SrcCheck.v.  I5: archives with the same member path "
                "twice are not generated.",
     gen=["Archive", "Private", "Deps", "Embed"],
-    model_files=["Ref/Tree.v", "Ref/Archive.v", "Corr/Common.v", "Corr/SrcCheck.v"],
+    model_files=["Ref/Tree.v", "Ref/Archive.v", "Ref/Embed.v", "Corr/Common.v", "Corr/SrcCheck.v"],
     model_targets=["Corr/SrcCheck.vo"],
-    proof_files=["Proofs/Tree.v", "Proofs/Archive.v", "Tie/Archive.v", "Tie/Graph.v", "Tie/Embed.v", "Props/C04.v"],
+    proof_files=["Proofs/Tree.v", "Proofs/Archive.v", "Proofs/Embed.v", "Tie/Archive.v", "Tie/Graph.v", "Tie/Embed.v", "Props/C04.v"],
     proof_targets=["Props/C04.vo"],
     props_module="Props.C04",
     theorems=["C04_listing_is_exactly_the_direct_children", "C04_listed_entries_are_readable_under_their_id",
               "C04_read_dir_answers_exactly_for_directories", "C04_code_builds_the_modelled_index",
               "C04_code_reads_whole_members", "C04_code_path_of_entry", "C04_code_parent_id", "C04_code_embed_macro",
               "C04_archive_index_answers_like_the_tree", "C04_member_order_is_irrelevant",
-              "C04_implied_directory_members_are_redundant", "C04_archive_nonvacuous"],
+              "C04_implied_directory_members_are_redundant", "C04_archive_nonvacuous",
+              "C04_embedded_tables_are_an_archive_index", "C04_embedded_answers_like_the_tree"],
     engines=[("srcdiff", [])],
     rule=SRC_RULE,
     trusted_base=["zip / tar writers used to build the archives"],
